@@ -1,11 +1,13 @@
 /-
   pkg/receive/hashring.go — metrics registration done by `NewMultiHashring` (spec-level).
 
-  `newShuffleShardCacheMetrics` registers five collectors per shuffle sharded hashring with
-  `promauto.With(reg)` under the constant label `hashring=<name>`; `promauto` calls `MustRegister`,
-  which panics when a collector with the same descriptor is registered already.  `Close`
-  unregisters them.  A registry is modelled by the list of hashring names whose collectors it
-  holds; a hashring configuration by `(name, shuffle sharded?)`.
+  Every shuffle sharded hashring has five cache metrics under the constant label
+  `hashring=<name>`.  As it was (`shared = false`): `newShuffleShardCacheMetrics` registered them
+  per hashring with `promauto` (`MustRegister` panics when a collector with the same descriptor
+  is registered already) and `Close` unregistered them.  Repaired (`shared = true`): hashrings
+  with the same registerer and name share one set of collectors, counted by users; the last
+  `Close` unregisters.  A registry is the multiset of hashring names in use (one occurrence per
+  user); a hashring configuration is `(name, shuffle sharded?)`.
 -/
 namespace Thanos.RingMetrics
 
@@ -17,20 +19,28 @@ inductive Load where
   deriving DecidableEq, Repr
 
 /-- the registrations of `NewMultiHashring`, hashring after hashring -/
-def load (reg : Registry) : List (String × Bool) → Load
+def load (shared : Bool) (reg : Registry) : List (String × Bool) → Load
   | [] => .ok reg
   | (name, sharded) :: rest =>
-    if sharded then (if reg.contains name then .panic else load (name :: reg) rest)
-    else load reg rest
+    if sharded then
+      (if !shared && reg.contains name then .panic else load shared (name :: reg) rest)
+    else load shared reg rest
 
-/-- `multiHashring.Close`: every shuffle sharded hashring unregisters its collectors -/
-def close (reg : Registry) (cfg : List (String × Bool)) : Registry :=
-  reg.filter fun n => !(cfg.any fun c => c.2 && c.1 == n)
+/-- the names of the shuffle sharded hashrings of a configuration -/
+def shardedNames (cfg : List (String × Bool)) : List String := (cfg.filter (·.2)).map (·.1)
+
+/-- remove one user per listed name -/
+def release (reg : Registry) : List String → Registry
+  | [] => reg
+  | n :: ns => release (reg.erase n) ns
+
+/-- `multiHashring.Close`: every shuffle sharded hashring releases its metrics -/
+def close (reg : Registry) (cfg : List (String × Bool)) : Registry := release reg (shardedNames cfg)
 
 /-- a hashring file update (cmd/thanos/receive.go): the new multi hashring is built with the same
     registerer while the old one is installed; `Handler.Hashring` closes the old one afterwards -/
-def update (reg : Registry) (old new : List (String × Bool)) : Load :=
-  match load reg new with
+def update (shared : Bool) (reg : Registry) (old new : List (String × Bool)) : Load :=
+  match load shared reg new with
   | .panic => .panic
   | .ok reg' => .ok (close reg' old)
 
